@@ -321,6 +321,9 @@ class Supercell(object):
         """
         if c < -1 or c >= self.Nchem:
             raise IndexError('Trying to occupy with a non-defined chemistry: {} out of range'.format(c))
+        if not -len(self.occ) <= ind < len(self.occ):
+            raise IndexError('Trying to occupy a non-defined site: {} out of range'.format(ind))
+        if ind < 0: ind += len(self.occ)  # chemorder lists site indices: a negative index names the same site as its positive form
         corig = self.occ[ind]
         if corig != c:
             if corig >= 0:
